@@ -150,37 +150,87 @@ func c13Corrupt(src string, rec *evid.Recorder) *Fail {
 		if perr != nil {
 			return failf("tolerant mode (smart=%v) accepts the text without error but the tree does not compile: %v\nsrc %q", smart, perr, src)
 		}
-		repaired, ok := c13Repair(src, smart)
-		if !ok {
-			return failf("tolerant mode (smart=%v) accepts without error a text that strict mode rejects, and no combination of added statement separators and final closing braces makes the text acceptable to strict mode: the acceptance is not explained by the documented relaxations\nsrc      %q\ntree     %q\nbest repair %q\nstrict errors on src %v", smart, src, code, repaired, es)
+		// how many blocks are left open is at most the surplus of opening braces (a
+		// brace that strict mode takes for something else, e.g. in a parameter
+		// list, opens nothing): every count up to the surplus is a legitimate repair
+		same, accepted, firstRepair, firstOther, best := false, 0, "", "", ""
+		c13Repairs(src, smart, func(repaired string, ok bool) bool {
+			if !ok {
+				if best == "" {
+					best = repaired
+				}
+				return true
+			}
+			accepted++
+			ps, _, _ := parseX(repaired, Mode{Smart: smart})
+			code2, _, _ := safeCompile(ps, Cfg{})
+			if code2 == code {
+				same = true
+				return false
+			}
+			if firstOther == "" {
+				firstRepair, firstOther = repaired, code2
+			}
+			return true
+		})
+		if accepted == 0 {
+			return failf("tolerant mode (smart=%v) accepts without error a text that strict mode rejects, and no combination of added statement separators and final closing braces makes the text acceptable to strict mode: the acceptance is not explained by the documented relaxations\nsrc      %q\ntree     %q\nbest repair %q\nstrict errors on src %v", smart, src, code, best, es)
 		}
-		ps, _, _ := parseX(repaired, Mode{Smart: smart})
-		if code2, _, _ := safeCompile(ps, Cfg{}); code2 != code {
-			return failf("tolerant mode (smart=%v): the tree differs from strict mode's tree of the text repaired with separators and final braces only\nsrc      %q\ntolerant %q\nrepaired %q\nstrict   %q", smart, src, code, repaired, code2)
+		if !same {
+			return failf("tolerant mode (smart=%v): the tree differs from strict mode's tree of the text repaired with separators and final braces only\nsrc      %q\ntolerant %q\nrepaired %q\nstrict   %q", smart, src, code, firstRepair, firstOther)
 		}
 	}
 	return nil
 }
 
-// c13Repair: see c13Corrupt.  Blocks left open can only be closed at the very
-// end, and how many are open is a matter of counting braces; where separators
-// are missing is found with strict mode's first error as the guide.
-func c13Repair(src string, smart bool) (string, bool) {
-	open := 0
+// c13Repairs: see c13Corrupt.  Blocks left open can only be closed at the very
+// end.  How many are open cannot be read off the braces: strict mode takes a
+// brace in a parameter list for a parameter (`function f({){` has one open
+// block, `function f(}){` has one as well), so every count from zero to the
+// number of `{` tokens is tried, nearest to the surplus of `{` over `}` first.
+// Where separators are missing is found with strict mode's first error as the
+// guide.  visit is called for every count (repaired text, whether strict mode
+// accepts it) until it returns false.
+func c13Repairs(src string, smart bool, visit func(string, bool) bool) {
+	surplus, max := 0, 0
 	for _, t := range lexAll(src) {
 		switch t.Type {
 		case token.LBRACE:
-			open++
+			surplus++
+			max++
 		case token.RBRACE:
-			open--
+			surplus--
 		}
 	}
+	if surplus < 0 {
+		surplus = 0
+	}
+	if surplus > max {
+		surplus = max
+	}
+	for d := 0; d <= max; d++ {
+		ks := []int{surplus - d, surplus + d}
+		if d == 0 {
+			ks = ks[:1]
+		}
+		for _, k := range ks {
+			if k < 0 || k > max {
+				continue
+			}
+			if !visit(c13Repair(src, smart, k)) {
+				return
+			}
+		}
+	}
+}
+
+func c13Repair(src string, smart bool, closers int) (string, bool) {
 	cur := src
-	if open > 0 {
+	if closers > 0 {
 		if strings.Contains(src[lastLineStart(src):], "//") {
 			cur += "\n" // never append into a trailing comment
 		}
-		cur += strings.Repeat("}", open)
+		cur += strings.Repeat("}", closers)
 	}
 	errPos := func(text string) (int, bool) {
 		_, es, _ := parseX(text, Mode{Smart: smart})
